@@ -58,6 +58,11 @@ type scenario struct {
 	Spelling   string `json:"spelling,omitempty"`
 	// read-side fault (faultfs.go) and HISTORY: calls made earlier in the same process (the library must judge every call by
 	// its own arguments, whatever was asked before)
+	// SIZE: BulkDir (sandbox-relative) gets Bulk flat entries (files, a few links to outside and dangling links among them);
+	// Mem: the same call on the in-memory back end (no links there)
+	Bulk       int        `json:"bulk,omitempty"`
+	BulkDir    string     `json:"bulk_dir,omitempty"`
+	Mem        bool       `json:"mem,omitempty"`
 	Read       *readFault `json:"read,omitempty"`
 	Before     []scenario `json:"before,omitempty"`
 	FailNth    int    `json:"fail_nth,omitempty"`
@@ -186,6 +191,30 @@ func build(sandbox string, sc scenario, old time.Time) error {
 	for _, e := range es {
 		if e.Kind == "d" {
 			if err := os.MkdirAll(filepath.Join(sandbox, e.Path), 0o755); err != nil {
+				return err
+			}
+		}
+	}
+	if sc.BulkDir != "" {
+		bd := filepath.Join(sandbox, sc.BulkDir)
+		if err := os.MkdirAll(bd, 0o755); err != nil {
+			return err
+		}
+		toOutside, err := filepath.Rel(bd, filepath.Join(sandbox, "outside"))
+		if err != nil {
+			return err
+		}
+		for i := 0; i < sc.Bulk; i++ {
+			p := filepath.Join(bd, fmt.Sprintf("e%05d", i))
+			switch {
+			case i%97 == 5:
+				err = os.Symlink(toOutside, p)
+			case i%89 == 7:
+				err = os.Symlink("nowhere", p)
+			default:
+				err = os.WriteFile(p, []byte("b"), 0o644)
+			}
+			if err != nil {
 				return err
 			}
 		}
@@ -738,6 +767,10 @@ func emitCase(r *h.Run, sc scenario, o *outcome) {
 }
 
 func runScenario(r *h.Run, sc scenario, emit bool) {
+	if sc.Mem {
+		runMem(r, sc)
+		return
+	}
 	r.Eval()
 	for _, b := range sc.Before {
 		b.Before = nil
@@ -812,7 +845,10 @@ func runScenario(r *h.Run, sc scenario, emit bool) {
 	if len(sc.Before) > 0 {
 		r.Count("with-history")
 	}
-	if emit && !sc.Global && sc.FailNth == 0 && sc.Read == nil && literal(effectivePatterns(sc)) {
+	if sc.BulkDir != "" {
+		r.Count(fmt.Sprintf("directory-size=%d", sc.Bulk))
+	}
+	if emit && !sc.Global && sc.FailNth == 0 && sc.Read == nil && sc.Bulk <= 64 && literal(effectivePatterns(sc)) {
 		emitCase(r, sc, o)
 	}
 }
@@ -927,6 +963,7 @@ func corpus() []scenario {
 			out = append(out, scenario{Entries: fw, Root: "tree/sub", Op: op, Spelling: sp, GC: "all"})
 		}
 	}
+	out = append(out, sizeScenarios(thoroughRun)...)
 	out = append(out, historySequences()...)
 	out = append(out, readFaultScenarios(fw)...)
 	// mutual loop, link chain, links only, empty tree, missing root, file root
@@ -965,9 +1002,105 @@ func corpus() []scenario {
 	return out
 }
 
+// sizeScenarios: directories of 0, 1, 255/256/257, 1023/1024/1025, ~1500 (thorough: ~5000) flat entries — the boundaries of
+// chunked directory reads — as the root handed in and one level below it, for every rm / clean entry point, on the OS back
+// end (a few links among the entries) and on the in-memory back end.  Same oracle.
+func sizeScenarios(thorough bool) []scenario {
+	var out []scenario
+	sizes := []int{0, 1, 255, 256, 257, 1023, 1024, 1025, 1500}
+	if thorough {
+		sizes = append(sizes, 2047, 2048, 2049, 5000)
+	}
+	all := append(append([]string{}, rmOps...), cleanOps...)
+	for _, n := range sizes {
+		ops := all
+		if n != 1025 && n != 1500 && n != 2049 {
+			ops = []string{"Rm", "CleanDir", "RemoveWithContextAndExclusionPatterns"} // every entry point just above a boundary, three below / at it
+		}
+		for _, op := range ops {
+			out = append(out, scenario{Entries: append(base(), d("tree"), f("tree/a", "a")), Root: "tree/big", Op: op, Bulk: n, BulkDir: "tree/big"})
+			out = append(out, scenario{Root: "tree/big", Op: op, Bulk: n, BulkDir: "tree/big", Mem: true})
+		}
+		for _, op := range []string{"Rm", "CleanDirWithContext"} {
+			out = append(out, scenario{Entries: append(base(), d("tree"), f("tree/a", "a")), Root: "tree", Op: op, Bulk: n, BulkDir: "tree/big"})
+			out = append(out, scenario{Root: "tree", Op: op, Bulk: n, BulkDir: "tree/big", Mem: true})
+		}
+	}
+	return out
+}
+
+// runMem: the in-memory back end (no links): only the size clause and the outside file are judged
+func runMem(r *h.Run, sc scenario) {
+	r.Eval()
+	caseNo++
+	fs := filesystem.NewInMemoryFileSystem()
+	sandbox := fmt.Sprintf("/sb%d", caseNo)
+	cls := opClass(sc.Op)
+	fail := func(sig, what string) { r.Fail(sig+":"+cls+":in-memory", what, sc) }
+	if err := fs.MkDir(filepath.Join(sandbox, sc.BulkDir)); err != nil {
+		r.Note("in-memory set-up failed: " + err.Error())
+		return
+	}
+	_ = fs.MkDir(filepath.Join(sandbox, "outside"))
+	_ = fs.WriteFile(filepath.Join(sandbox, "outside/precious.txt"), []byte("precious"), 0o644)
+	_ = fs.WriteFile(filepath.Join(sandbox, "tree/a"), []byte("a"), 0o644)
+	for i := 0; i < sc.Bulk; i++ {
+		if err := fs.WriteFile(filepath.Join(sandbox, sc.BulkDir, fmt.Sprintf("e%05d", i)), []byte("b"), 0o644); err != nil {
+			r.Note("in-memory set-up failed: " + err.Error())
+			return
+		}
+	}
+	target := filepath.Join(sandbox, sc.Root)
+	ctx := context.Background()
+	var err error
+	switch sc.Op {
+	case "Rm":
+		err = fs.Rm(target)
+	case "RemoveWithContext":
+		err = fs.RemoveWithContext(ctx, target)
+	case "RemoveWithContextAndExclusionPatterns":
+		err = fs.RemoveWithContextAndExclusionPatterns(ctx, target)
+	case "RemoveWithPrivileges":
+		err = fs.RemoveWithPrivileges(ctx, target)
+	case "CleanDir":
+		err = fs.CleanDir(target)
+	case "CleanDirWithContext":
+		err = fs.CleanDirWithContext(ctx, target)
+	case "CleanDirWithContextAndExclusionPatterns":
+		err = fs.CleanDirWithContextAndExclusionPatterns(ctx, target)
+	default:
+		return
+	}
+	r.Count("op=" + sc.Op + ":in-memory")
+	r.Count(fmt.Sprintf("directory-size=%d:in-memory", sc.Bulk))
+	if bs, e := fs.ReadFile(filepath.Join(sandbox, "outside/precious.txt")); e != nil || string(bs) != "precious" {
+		fail("outside-deleted", fmt.Sprintf("%s(%q) touched outside/precious.txt", sc.Op, sc.Root))
+	}
+	if err != nil {
+		r.Count("result=error:" + cls + ":in-memory")
+		return
+	}
+	var left []string
+	_ = fs.ListDirTree(target, &left)
+	switch cls {
+	case "rm":
+		if fs.Exists(target) {
+			fail("tree-remains-after-success", fmt.Sprintf("%s(%q) on a directory of %d entries returned nil but %d entries are still there", sc.Op, sc.Root, sc.Bulk, len(left)))
+		}
+	case "clean":
+		if len(left) > 0 {
+			fail("content-remains-after-success", fmt.Sprintf("%s(%q) on a directory of %d entries returned nil but %d entries are still there", sc.Op, sc.Root, sc.Bulk, len(left)))
+		}
+		if !fs.Exists(target) {
+			fail("cleaned-directory-removed", fmt.Sprintf("%s(%q) removed the directory itself", sc.Op, sc.Root))
+		}
+	}
+}
+
 // historySequences: pairs of calls in the same process whose pattern LISTS are textually close (same concatenation, same
 // %v / %s / Join rendering, a permutation, a prefix, blanks, commas, brackets).  Each call is judged by its own list.
 var histNo int
+var thoroughRun bool
 
 func historySequences() []scenario {
 	var out []scenario
@@ -1266,6 +1399,7 @@ func main() {
 	defer os.RemoveAll(tmpRoot)
 	r.Note(fmt.Sprintf("euid=%d (as root, read-only directories do not block removal and are only a decoration)", os.Geteuid()))
 
+	thoroughRun = r.Thorough() || r.Deep
 	var sc scenario
 	if _, ok := r.ReplayObject(&sc); ok {
 		runScenario(r, sc, false)
@@ -1273,13 +1407,14 @@ func main() {
 		_ = os.RemoveAll(tmpRoot)
 		return
 	}
-	for _, sc := range corpus() {
+	cp := corpus()
+	for _, sc := range cp {
 		runScenario(r, sc, true)
 	}
 	n := r.N(900, 4000)
 	nCases := r.N(650, 2500)
 	for i := 0; i < n; i++ {
-		runScenario(r, gen(r, i%3 == 2), r.NCases() < nCases+len(corpus()))
+		runScenario(r, gen(r, i%3 == 2), r.NCases() < nCases+len(cp))
 	}
 	r.Finish()
 	_ = os.RemoveAll(tmpRoot)
